@@ -203,6 +203,59 @@ def run(ctx):
             if ctx.violations:
                 break
         ctx.seed = ctx2seed
+    # parameterised covergroups: instances whose wildcard patterns differ must not share a type (public-API oracle)
+    import io
+    import contextlib
+    r3 = random.Random("C19-pair-%d" % ctx.seed)
+    pcases = []
+    for _ in range(30 if ctx.quick() else 400):
+        w = r3.choice([4, 5, 6])
+        def spec():
+            m = r3.randrange(1, 1 << w)
+            return ["p", r3.randrange(1 << w), m]
+        a = [spec() for _ in range(r3.randint(1, 2))]
+        q = r3.random()
+        if q < 0.25:
+            b = [list(x) for x in a]                                   # identical patterns: one type
+        elif q < 0.7:
+            b = [list(x) for x in a]
+            k = r3.randrange(len(b))
+            # same masked value, another mask (more or fewer wildcard bits), or the same pattern written with other don't-care bits
+            nm = r3.randrange(1, 1 << w)
+            b[k] = ["p", (b[k][1] & b[k][2]) | (r3.randrange(1 << w) & ~b[k][2] & ((1 << w) - 1) if r3.random() < 0.3 else 0), nm if r3.random() < 0.8 else b[k][2]]
+        else:
+            b = [spec() for _ in range(len(a))]
+        samples = [[r3.randrange(1 << w) for _ in range(r3.randint(3, 12))] for _ in range(2)]
+        pcases.append({"width": w, "pair": [a, b], "samples": samples})
+    pobs = core.run_impl_parallel(ctx, "c19_impl.py", pcases, nchunks=4)
+    norm = lambda sp: [(v & m, m) for _, v, m in sp]
+    hit = lambda sp, v: any((v & m) == (pv & m) for _, pv, m in sp)
+    npairs = 0
+    for c, o in zip(pcases, pobs):
+        if o.get("_crash") or "crash" in o:
+            core.add_violation(ctx, "library raised on two instances of a parameterised covergroup with wildcard bins: %s" % str(o)[:300], {"case": c})
+            continue
+        npairs += 1
+        a, b = c["pair"]
+        exp_inst = [[sum(1 for v in c["samples"][k] if hit(c["pair"][k], v))] for k in range(2)]
+        same = norm(a) == norm(b)
+        got = o["pair"]
+        shared = got[0]["type_id"] == got[1]["type_id"]
+        # (instances with equal patterns written differently may or may not share a type; what must not happen is sharing
+        # between different patterns)
+        exp_type = [[exp_inst[0][0] + exp_inst[1][0]]] * 2 if shared else exp_inst
+        what = None
+        if [g["inst_hits"] for g in got] != exp_inst:
+            what = "instance hits %s, expected %s" % ([g["inst_hits"] for g in got], exp_inst)
+        elif shared and not same:
+            what = "the two instances share a type although their patterns are different"
+        elif [g["type_hits"] for g in got] != exp_type:
+            what = "type-level hits %s, expected %s" % ([g["type_hits"] for g in got], exp_type)
+        if what:
+            core.add_violation(ctx, "parameterised covergroup with wildcard patterns %s / %s: %s" % (a, b, what), {"case": c, "observed": got})
+    ctx.coverage["parameterised_pairs"] = {"pairs": npairs, "rule": "two instances of one covergroup class whose wildcard_bin patterns are equal, "
+                                           "equal up to don't-care value bits, differ only in the mask, or differ altogether; per-instance "
+                                           "hits, type sharing and type-level hits against the pattern semantics (public-API oracle)"}
     # evidence
     distinct = len({repr((c["specs"], c["array"], c["nbins"])) for c in cases if not c.get("malformed")
                     and any(n_wild_bits(s) > 0 for s in c["specs"])})
